@@ -13,8 +13,11 @@ import (
 	"encoding/hex"
 	"flag"
 	"fmt"
+	"go/importer"
+	"go/types"
 	"os"
 	"path/filepath"
+	"regexp"
 	"runtime"
 	"strconv"
 	"strings"
@@ -25,6 +28,7 @@ import (
 	"github.com/goplus/llgo/internal/crosscompile"
 	"github.com/goplus/llgo/internal/env"
 	"github.com/goplus/llgo/internal/optlevel"
+	llssa "github.com/goplus/llgo/ssa"
 )
 
 func unhex(s string) (string, error) {
@@ -363,6 +367,17 @@ func protocol() {
 					out = "ok " + strings.Join(l, ",")
 				}
 			}
+		case len(f) == 5 && f[0] == "abitypes":
+			// abitypes <n types> <seed> <reflect-usage mask, -1 = unfiltered> <repetitions>: compile the same generated program
+			// <repetitions> times in this process and ask for the entry module's type list as genMainModule does
+			nT, e1 := strconv.Atoi(f[1])
+			seed, e2 := strconv.Atoi(f[2])
+			mask, e3 := strconv.Atoi(f[3])
+			reps, e4 := strconv.Atoi(f[4])
+			if e1 != nil || e2 != nil || e3 != nil || e4 != nil || reps < 2 {
+				break
+			}
+			out = abiTypes(nT, seed, mask, reps)
 		case len(f) == 4 && f[0] == "meta":
 			// meta <needRt 0|1> <needPyInit 0|1> <link args list>: saveToCache then tryLoadFromCache, print what comes back
 			args, err := unlist(f[3])
@@ -392,6 +407,51 @@ func protocol() {
 		}
 		fmt.Fprintln(w, out)
 	}
+}
+
+var rtPkg *types.Package
+
+func abiTypes(n, seed, mask, reps int) (res string) {
+	defer func() {
+		if r := recover(); r != nil {
+			res = fmt.Sprintf("err panic: %v", r)
+		}
+	}()
+	if rtPkg == nil {
+		llssa.Initialize(llssa.InitAll)
+		p, err := importer.For("source", nil).Import(llssa.PkgRuntime)
+		if err != nil {
+			return "err import runtime: " + strings.ReplaceAll(err.Error(), "\n", " ")
+		}
+		rtPkg = p
+	}
+	var filter func(sym *llssa.AbiSymbol) bool
+	if mask >= 0 {
+		filter = func(sym *llssa.AbiSymbol) bool { return build.VerifFilterAbiSymbol(mask, sym) }
+	}
+	order := func(ir string) string {
+		for _, line := range strings.Split(ir, "\n") {
+			if strings.HasPrefix(line, `@"init$abitypes$array" =`) {
+				var names []string
+				for _, m := range regexp.MustCompile(`ptr @"([^"]+)"`).FindAllStringSubmatch(line, -1) {
+					names = append(names, vhex(m[1]))
+				}
+				return strings.Join(names, ",")
+			}
+		}
+		return "."
+	}
+	first, firstUser, selected := llssa.VerifEntryModule(rtPkg, n, seed, filter)
+	for i := 2; i <= reps; i++ {
+		again, againUser, _ := llssa.VerifEntryModule(rtPkg, n, seed, filter)
+		if again != first {
+			return fmt.Sprintf("differs entry build=%d selected=%d %s %s", i, selected, order(first), order(again))
+		}
+		if againUser != firstUser {
+			return fmt.Sprintf("differs user build=%d selected=%d . .", i, selected)
+		}
+	}
+	return fmt.Sprintf("ok selected=%d entry=%d user=%d sha=%s", selected, len(first), len(firstUser), sha(first + firstUser)[:16])
 }
 
 type xflags []string
